@@ -6,7 +6,7 @@ Import ListNotations. Open Scope nat_scope.
 
 (* Elements are object IDENTITIES (two distinct objects that compare and hash equal are two elements; Python list semantics never
    compare elements, and every write path records element by element).
-   For every history of assignment, self-assignment, += / |=, append, extend (of a list, a one-shot iterator or the field
+   For every history of assignment, self-assignment, += / |= (through `owner.field` or through another reference to the container), append, extend (of a list, a one-shot iterator or the field
    itself), insert, item assignment (index, or a slice given a list or a one-shot iterator), add, update (any number of
    iterables), from any contents s whose elements are recorded (a set holding no element twice):
    the contents after every operation and the IndexErrors are those of a plain Python list / set, every element (identity) of
@@ -41,11 +41,6 @@ Theorem C16_clone_writes : forall o s, match o with
   end.
 Proof. exact clone_write_recorded. Qed.
 
-(* outside the fragment (known finding C16-n): += / |= applied to the container through another reference than `owner.field` *)
-Theorem C16_refuted_alias_inplace : exists k s vs x, wf k (items s) /\ incl (items s) (rec s) /\
-  In x (items (builtin_iaug k vs s)) /\ ~ In x (rec (builtin_iaug k vs s)).
-Proof. exact refuted_alias_inplace. Qed.
-
 (* non-vacuity: the three formerly erasing writes, and an assignment with repetitions *)
 Example C16_nonvacuous :
   items (snd (Container.run KList [Assign [2; 1; 0; 1]; AssignSelf; IAug [3]] (init KList []))) = [2; 1; 0; 1; 3] /\
@@ -58,4 +53,3 @@ Print Assumptions C16_constructor.
 Print Assumptions C16_inferences.
 Print Assumptions C16_constructor_copy.
 Print Assumptions C16_clone_writes.
-Print Assumptions C16_refuted_alias_inplace.
